@@ -24,7 +24,8 @@ def play(prob, calls):
         n0 = len(opt._log["penalty"])
         flags0 = ("".join("y" if v.active else "n" for v in opt.vary), "".join("y" if t.active else "n" for t in opt.targets))
         try:
-            exec(c, dict(opt=opt, d=d, prob=prob))
+            with deadline(120):
+                exec(c, dict(opt=opt, d=d, prob=prob))
             ok = True
         except Exception as ex:
             ok = False
